@@ -33,7 +33,9 @@ type c09Event struct {
 	op   string
 }
 
-func (e c09Event) String() string { return fmt.Sprintf("%s:%s.%s@%d.%d", e.op, e.db, e.coll, e.ts.T, e.ts.I) }
+func (e c09Event) String() string {
+	return fmt.Sprintf("%s:%s.%s@%d.%d", e.op, e.db, e.coll, e.ts.T, e.ts.I)
+}
 
 type c09Hist struct {
 	H     []c09Event
